@@ -136,7 +136,10 @@ func checkC13GoTyped(c c13GoCase) error {
 	// (b) accepted in the encoding direction => accepted in the decoding direction
 	if _, derr := decodeAny(kind, out); derr != nil {
 		if hasTagOrWideInt(out) {
-			return finding("own-output-refused/tag-or-int-beyond-int64-in-value", "%s %s %s = %s: the encoder emits a header value holding a CBOR tag or an integer beyond int64, which the library's decoder refuses: %v\nemitted=%x", c.Ctx, c.Bucket, c.Label, c.Value, derr, out)
+			// outside the supported data model (DESIGN.md 2.4: integer values beyond int64, tags in
+			// values of an envelope): the decoders' refusal is the documented limit; excluded, counted
+			stats.Excluded("go-typed value outside the data model (tag / integer beyond int64 in the emitted value)")
+			return nil
 		}
 		return finding("own-output-refused/go-typed-value", "%s %s %s = %s: the decoder refuses what the encoder produced: %v\nemitted=%x", c.Ctx, c.Bucket, c.Label, c.Value, derr, out)
 	}
